@@ -26,6 +26,12 @@ def _object_init(*a, **k):
 _MISSING = object()
 
 
+class StarVal:
+    """*xs where xs is a symbolic sequence: only accepted by a callee with a *args parameter."""
+    def __init__(self, val):
+        self.val = val
+
+
 def _static(cls, name, default=None):
     try:
         return inspect.getattr_static(cls, name)
@@ -171,7 +177,20 @@ class CallMixin:
     # ------------------------------------------------------------ calls
     def e_Call(self, st, n):
         out = []
-        for s, f in self.ev(st, n.func):
+        if isinstance(n.func, ast.Attribute) and n.func.attr in ("items", "values", "keys", "get") :
+            # x.items() / x.get(k) on a value of statically unknown class: a mapping method (obligation: x is a mapping)
+            res = []
+            for s, base in self.ev(st, n.func.value):
+                if is_exc(base):
+                    res.append((s, base))
+                elif isinstance(base, Val) and base.cls is None and base.kind in (None, "obj") and base.sort == "V":
+                    res.append((s, BM(base, n.func.attr)))
+                else:
+                    res.extend(self.getattr(s, base, n.func.attr, n.func))
+            fpaths = res
+        else:
+            fpaths = self.ev(st, n.func)
+        for s, f in fpaths:
             if is_exc(f):
                 out.append((s, f))
                 continue
@@ -202,6 +221,9 @@ class CallMixin:
             return list(v.items)
         if isinstance(v, PyC) and isinstance(v.obj, (tuple, list)):
             return [PyC(x) for x in v.obj]
+        lv = self.lift(v)
+        if lv.kind in ("list", "tuple"):
+            return [StarVal(lv)]
         raise OutOfSubset("*args of unknown length", node)
 
     def unpack_kwargs(self, v, node):
@@ -291,9 +313,21 @@ class CallMixin:
         args = list(args)
         for name in pos:
             if args:
+                if isinstance(args[0], StarVal):
+                    raise OutOfSubset("symbolic *args bound to a named parameter", node)
                 env[name] = args.pop(0)
         if a.vararg:
-            env[a.vararg.arg] = PyList(args, "tuple")
+            if any(isinstance(x, StarVal) for x in args):
+                parts = []
+                for x in args:
+                    if isinstance(x, StarVal):
+                        parts.append(f"(seqof {asV(x.val)})")
+                    else:
+                        parts.append(f"(seq.unit {asV(self.lift(x))})")
+                t = parts[0] if len(parts) == 1 else "(seq.++ " + " ".join(parts) + ")"
+                env[a.vararg.arg] = Val(f"(v_tuple {t})", kind="tuple", fresh=TRUE)
+            else:
+                env[a.vararg.arg] = PyList(args, "tuple")
             args = []
         if args:
             raise OutOfSubset("too many positional arguments", node)
@@ -404,6 +438,23 @@ class CallMixin:
                     pass
                 for a in sorted(names):
                     self.oset(st, target, a, self.fresh_val("attr_" + a))
+            elif isinstance(target, Val) and (target.kind == "obj" or target.cls is not None or m == root):
+                # a pre-existing object modified by the callee: the attributes its postcondition mentions get new heap
+                # versions at that object (the postcondition then constrains them); remembered for the frame obligation
+                names = set(c.ghost.get("sets", []))
+                try:
+                    for nd in ast.walk(ast.parse(c.returns, mode="eval")):
+                        if isinstance(nd, ast.Attribute) and isinstance(nd.value, ast.Name) and nd.value.id == root:
+                            names.add(nd.attr)
+                except SyntaxError:
+                    pass
+                rec = []
+                for a in sorted(names):
+                    old_fn = self.cur_attr(st, a)
+                    nv = self.fresh_val("hv_" + a)
+                    self.heap_store(st, a, asV(target), nv.t)
+                    rec.append((a, f"({old_fn} {asV(target)})", f"({self.cur_attr(st, a)} {asV(target)})"))
+                self.callee_writes[(id(c), root)] = rec
         if c.result_cls:
             rcls = self.spec_names[c.result_cls]
         else:
@@ -458,6 +509,10 @@ class CallMixin:
                 return self.call_function(st, f, [PyC(cls)] + args, kwargs, node, selfcls=cls)
         so = SymObj(cls, args=(args, kwargs))
         init = _static(cls, "__init__")
+        if (init is None or not inspect.isfunction(init)) and issubclass(cls, dict) and len(args) == 1 and not kwargs:
+            lv = self.lift(args[0])
+            so.attrs["__dictview__"] = Val(self.as_dict(asV(lv)), kind="dict")
+            return [(st, so)]
         if init is None or not inspect.isfunction(init):
             if args or kwargs:
                 raise OutOfSubset(f"constructor of {cls.__name__} with arguments but no python __init__", node)
@@ -466,6 +521,16 @@ class CallMixin:
         for s, r in self.call_function(st, init, [so] + args, kwargs, node, selfcls=cls):
             out.append((s, r if is_exc(r) else so))
         return out
+
+    def as_dict(self, t):
+        """The mapping held by a value that is a dict or an object of a dict subclass."""
+        f = self.declare_fun("obj_dict", ["V"], "V")
+        if t in self.escaped_objs:
+            so = self.escaped_objs[t]
+            dv = self.oattrs(getattr(self, "spec_state", None), so).get("__dictview__")
+            if dv is not None:
+                return asV(dv)
+        return f"(ite (k_dict {t}) {t} ({f} {t}))"
 
     # ---- inlining of closures / lambdas / nested defs
     def inline_closure(self, st, clo, args, kwargs, node):
@@ -560,6 +625,12 @@ class CallMixin:
     def assign_target(self, st, target, value, node):
         """Bind a (possibly tuple) target in st.env. Values may be python-side."""
         if isinstance(target, ast.Name):
+            k = self.contract.kinds.get(target.id) if isinstance(value, Val) and value.sort == "V" and value.cls is None and value.kind is None else None
+            if k:
+                hint = self.kind_hint(k)
+                self.obl("kind", node, st, self.kind_pred(hint, value.t), detail=f"loop variable {target.id} is {k}")
+                st.assume(self.kind_pred(hint, value.t), fact=True)
+                value = Val(value.t, "V", value.fresh, hint[0], hint[1], value.origin)
             st.env[target.id] = value
             return
         if isinstance(target, (ast.Tuple, ast.List)):
@@ -767,6 +838,27 @@ class CallMixin:
         s_ok.assume(f"({ctor} {r.t})")
         passes = Or(*[And(*pcx) for pcx, c, v in normal if c == TRUE]) if normal else FALSE
         has_filter = bool(g.ifs)
+        if kind == "dict" and not skolem:
+            # a dict comprehension is a lookup table: a key is present iff some passing index produces it, and its value
+            # is the one produced by the *last* such index (later entries overwrite earlier ones)
+            vals = [(And(*pcx), v) for pcx, c_, v in normal if c_ == TRUE]
+
+            def kv(var, which):
+                t = None
+                for cnd, v in reversed(vals):
+                    k_, v_ = v.items
+                    vt = asS(self.lift(k_)) if which == 0 else asV(self.lift(v_))
+                    t = vt if t is None else Ite(cnd, vt, t)
+                return at(t, var) if t is not None else ('""' if which == 0 else "v_none")
+            kq, j1, j2 = fresh_name("key"), fresh_name("j"), fresh_name("jj")
+            rng = lambda v: f"(and (<= 0 {v}) (< {v} (seq.len {sq})))"
+            s_ok.assume(f"(<= (seq.len (ditems {r.t})) (seq.len {sq}))")
+            s_ok.assume(f"(forall (({kq} String)) (! (= (dhas {r.t} {kq}) (exists (({j1} Int)) (and {rng(j1)} {at(passes, j1)} (= {kv(j1, 0)} {kq})))) :pattern ((dhas {r.t} {kq}))))")
+            s_ok.assume(f"(forall (({kq} String)) (! (=> (dhas {r.t} {kq}) (exists (({j1} Int)) (and {rng(j1)} {at(passes, j1)} (= {kv(j1, 0)} {kq}) (= (dval {r.t} {kq}) {kv(j1, 1)}) "
+                        f"(forall (({j2} Int)) (=> (and (< {j1} {j2}) (< {j2} (seq.len {sq})) {at(passes, j2)}) (not (= {kv(j2, 0)} {kq}))))))) :pattern ((dval {r.t} {kq}))))")
+            self.trusted_used.add("dict comprehension: key present iff produced by a passing index; value from the last such index (library semantics of dict construction)")
+            out.append((s_ok, r))
+            return out
         if skolem:
             s_ok.assume(f"(<= (seq.len {rs}) (seq.len {sq}))")
             if not has_filter:
@@ -804,7 +896,5 @@ class CallMixin:
                 p1, p2 = fresh_name("p1"), fresh_name("p2")
                 s_ok.assume(Eq(f"(>= (seq.len {rs}) 2)", f"(exists (({p1} Int) ({p2} Int)) (and (<= 0 {p1}) (< {p1} {p2}) (< {p2} (seq.len {sq})) {at(passes, p1)} {at(passes, p2)}))"))
                 self.trusted_used.add("filter comprehension: len bounds, emptiness iff no index passes, members are images of passing indices, first member from first passing index, >= 2 members iff two indices pass (List.filter/map lemmas)")
-        if kind == "dict":
-            s_ok.assume(f"(dict_wf {r.t})") if not skolem else None
         out.append((s_ok, r))
         return out
